@@ -4,7 +4,7 @@
 //! EdDSA verifier. Every token is hand-assembled JSON signed by the harness (`vx::fx::compact_ed`), because
 //! the library cannot emit the inconsistent / out-of-range claim sets.
 //!
-//! Worlds: three holder documents with id H = did:example:holder (choice point "holder document"); the key of a
+//! Worlds: six holder documents with id H = did:example:holder (choice point "holder document"); the key of a
 //! method is fixed by its fragment: a1 key 0, g2 key 1, g3 key 2, f4 key 3, s5 key 4, k7 key 5, d8 key 6, i9 key 7,
 //! x6 has no JWK (publicKeyMultibase); key 9 belongs to nobody.
 //!   D0 "rich"    a1 embedded in `authentication`; g2 general + referenced from `authentication`; g3 general only;
@@ -16,6 +16,12 @@
 //!   D2 "moved"   the same fragments in other places and in reverse order: a1 general + referenced from
 //!                `assertionMethod`; g2 general + `assertionMethod`; g3 general + `authentication`; i9 general +
 //!                `capabilityDelegation`; s5 embedded in `keyAgreement`; k7, d8 embedded in `capabilityInvocation`
+//!   D3..D5 "shared fragment": the holder's own H#m0 (key 8) and a foreign did:example:other#m0 (key 10), plus a1:
+//!                D3 verificationMethod [other#m0, H#m0], H#m0 referenced from `authentication`, other#m0 from
+//!                `capabilityDelegation`; D4 the reverse order, other#m0 referenced from `assertionMethod`;
+//!                D5 H#m0 embedded in `authentication`, other#m0 general + `assertionMethod`.
+//!                kid = full id names exactly one of them (judged exactly; signature alternative "key of the
+//!                same-fragment twin"); kid = bare `m0` is ambiguous (open)
 //!
 //! Oracle (written from the property statement, not from the implementation): from the choices the set E of
 //! FALSE stated conditions {sig, key, kid, nonce, iss, exp, issuance, vp.holder, vp.id} and the set O of OPEN
@@ -113,8 +119,10 @@ struct Fixture {
 }
 
 /// the key of a method is fixed by its fragment
-fn key_of(frag: &str) -> Option<usize> {
+fn key_of(frag: &str, did: &str) -> Option<usize> {
   match frag {
+    // the shared fragment of D3..D5: the holder's own method and its foreign twin have different keys
+    "m0" => Some(if did == H { 8 } else { 10 }),
     "a1" => Some(0),
     "g2" => Some(1),
     "g3" => Some(2),
@@ -128,11 +136,11 @@ fn key_of(frag: &str) -> Option<usize> {
 }
 
 static FIX: Lazy<Fixture> = Lazy::new(|| {
-  let keys: Vec<EdKey> = (0..10u8).map(EdKey::new).collect();
+  let keys: Vec<EdKey> = (0..11u8).map(EdKey::new).collect();
   let m = |frag: &'static str, did: &str, general: bool, rels: u8| Method {
     id: format!("{did}#{frag}"),
     frag,
-    key: key_of(frag),
+    key: key_of(frag, did),
     general,
     rels,
     foreign: did != H,
@@ -140,7 +148,7 @@ static FIX: Lazy<Fixture> = Lazy::new(|| {
   // the JSON of a method (embedded or general)
   let mj = |frag: &str, did: &str| -> Value {
     let id = format!("{did}#{frag}");
-    match key_of(frag) {
+    match key_of(frag, did) {
       Some(k) => json!({"id": id, "controller": did, "type": "JsonWebKey2020",
                         "publicKeyJwk": serde_json::to_value(keys[k].public_with_alg("EdDSA")).expect("jwk json")}),
       None => json!({"id": id, "controller": did, "type": "Ed25519VerificationKey2018",
@@ -208,7 +216,35 @@ static FIX: Lazy<Fixture> = Lazy::new(|| {
       m("i9", H, true, R_CD),
     ],
   );
-  let worlds = vec![d0, d1, d2];
+  // D3..D5: two methods share the fragment m0 under different DIDs
+  let d3 = build(
+    json!({
+      "id": H,
+      "verificationMethod": [ mj("m0", OTHER), mj("m0", H) ],
+      "authentication": [ mj("a1", H), r("m0") ],
+      "capabilityDelegation": [ format!("{OTHER}#m0") ],
+    }),
+    vec![m("a1", H, false, R_AUTH), m("m0", H, true, R_AUTH), m("m0", OTHER, true, R_CD)],
+  );
+  let d4 = build(
+    json!({
+      "id": H,
+      "verificationMethod": [ mj("m0", H), mj("m0", OTHER) ],
+      "authentication": [ r("m0"), mj("a1", H) ],
+      "assertionMethod": [ format!("{OTHER}#m0") ],
+    }),
+    vec![m("a1", H, false, R_AUTH), m("m0", H, true, R_AUTH), m("m0", OTHER, true, R_ASSERT)],
+  );
+  let d5 = build(
+    json!({
+      "id": H,
+      "verificationMethod": [ mj("m0", OTHER) ],
+      "authentication": [ mj("a1", H), mj("m0", H) ],
+      "assertionMethod": [ format!("{OTHER}#m0") ],
+    }),
+    vec![m("a1", H, false, R_AUTH), m("m0", H, false, R_AUTH), m("m0", OTHER, true, R_ASSERT)],
+  );
+  let worlds = vec![d0, d1, d2, d3, d4, d5];
   Fixture { keys, worlds, validator: JwtPresentationValidator::with_signature_verifier(RealVerifier) }
 });
 
@@ -343,10 +379,10 @@ fn body(ctx: &Ctx, acc: &Acc, groups: u8, ch: &mut Chooser) {
   let mut x = Expect::default();
 
   // ------------------------------------------------------------ binding core
-  let world_c = pt(ch, groups, G_BIND, "holder document", 3, &[], &[]);
-  let sig_c = pt(ch, groups, G_BIND, "signature", 4, &[2], &[1]);
-  let kid_c = pt(ch, groups, G_BIND, "kid", 23, &[8, 11], &[10, 9]);
-  let ovr_c = pt(ch, groups, G_BIND, "method_id", 7, &[], &[]);
+  let world_c = pt(ch, groups, G_BIND, "holder document", 6, &[], &[]);
+  let sig_c = pt(ch, groups, G_BIND, "signature", 5, &[2], &[1]);
+  let kid_c = pt(ch, groups, G_BIND, "kid", 26, &[8, 11], &[10, 9]);
+  let ovr_c = pt(ch, groups, G_BIND, "method_id", 8, &[], &[]);
   let scope_c = pt(ch, groups, G_BIND, "method_scope", 7, &[], &[2]);
   let hnonce_c = pt(ch, groups, G_NONCE, "header nonce", 5, &[1], &[]);
   let ononce_c = pt(ch, groups, G_NONCE, "option nonce", 5, &[], &[2]);
@@ -377,7 +413,10 @@ fn body(ctx: &Ctx, acc: &Acc, groups: u8, ch: &mut Chooser) {
     19 => Some(format!("{H_SAME_LEN}#a1")),
     20 => Some(H.into()),
     21 => Some(format!("{H}#gone")),
-    _ => Some(format!("{H}#a1x")),
+    22 => Some(format!("{H}#a1x")),
+    23 => Some(format!("{H}#m0")),
+    24 => Some(format!("{OTHER}#m0")),
+    _ => Some("m0".into()),
   };
   let override_id: Option<String> = match ovr_c {
     0 => None,
@@ -386,7 +425,8 @@ fn body(ctx: &Ctx, acc: &Acc, groups: u8, ch: &mut Chooser) {
     3 => Some(format!("{OTHER}#f4")),
     4 => Some(format!("{H}#nope")),
     5 => Some(format!("{H_SAME_LEN}#a1")),
-    _ => Some(format!("{H}#k7")),
+    6 => Some(format!("{H}#k7")),
+    _ => Some(format!("{H}#m0")),
   };
   // "If unset, the kid of the JWS is used": the configured method id wins.
   let selector: Option<String> = override_id.clone().or(kid.clone());
@@ -405,10 +445,24 @@ fn body(ctx: &Ctx, acc: &Acc, groups: u8, ch: &mut Chooser) {
     5 => m.rels & R_CD != 0,
     _ => m.rels & R_CI != 0,
   };
-  // selection by full id, by fragment, or by '#' + fragment (fragments are unique inside every document)
+  // selection by full id, by fragment, or by '#' + fragment. In D3..D5 the fragment m0 is shared by the holder's
+  // own method and a foreign one: a full id still names exactly one method (judged exactly); a fragment-only
+  // selector on a shared fragment is ambiguous and left open.
+  let names = |m: &Method, s: &str| s == m.id || s == m.frag || s.strip_prefix('#') == Some(m.frag);
+  let shared: Vec<&Method> = match sel_for_model.as_deref() {
+    Some(s) if !s.starts_with("did:") => w.methods.iter().filter(|m| names(m, s)).collect(),
+    _ => Vec::new(),
+  };
+  let ambiguous = shared.len() > 1;
   let candidate: Option<&Method> = sel_for_model.as_deref().and_then(|s| {
-    w.methods.iter().find(|m| in_scope(m) && (s == m.id || s == m.frag || s.strip_prefix('#') == Some(m.frag)))
+    let mut hits = w.methods.iter().filter(|m| in_scope(m) && names(m, s));
+    let first = hits.next();
+    // (ambiguous selectors only) prefer the holder's own method as the modelled choice
+    first.filter(|m| !m.foreign).or_else(|| hits.find(|m| !m.foreign)).or(first)
   });
+  if ambiguous {
+    x.o.insert("ambiguous-fragment", L_JWS_ANY);
+  }
   match candidate {
     None => x.fail("kid", if selector.is_none() { "absent" } else { "no-method-in-scope" }, L_KID),
     Some(m) => {
@@ -425,13 +479,17 @@ fn body(ctx: &Ctx, acc: &Acc, groups: u8, ch: &mut Chooser) {
     }
   }
   // The signing key: the chosen method's. When no method may be chosen (unknown, out of scope, under another DID,
-  // wrong case), the token is signed with the key of the method the selector "nearly" names - the same fragment
-  // ignoring DID, scope and ASCII case - so that a lookup that wrongly finds that method ends in acceptance.
+  // wrong case), the token is signed with the key of the method the selector "nearly" names - the same id ignoring
+  // scope, else the same fragment ignoring DID, scope and ASCII case - so that a lookup that wrongly finds that
+  // method ends in acceptance.
   let near: Option<&Method> = selector.as_deref().and_then(|s| {
     let frag = s.rsplit('#').next().unwrap_or(s);
-    w.methods.iter().find(|m| m.frag.eq_ignore_ascii_case(frag))
+    w.methods.iter().find(|m| m.id == s).or_else(|| w.methods.iter().find(|m| m.frag.eq_ignore_ascii_case(frag)))
   });
-  let right_key: usize = candidate.and_then(|m| m.key).or(near.and_then(|m| m.key)).unwrap_or(0);
+  let base: Option<&Method> = candidate.or(near);
+  let right_key: usize = base.and_then(|m| m.key).unwrap_or(0);
+  // the method with the same fragment under another DID, if the document has one
+  let twin: Option<&Method> = base.and_then(|b| w.methods.iter().find(|m| m.frag == b.frag && m.id != b.id));
   let sign_key: usize = match sig_c {
     0 | 3 => right_key,
     1 => {
@@ -441,10 +499,13 @@ fn body(ctx: &Ctx, acc: &Acc, groups: u8, ch: &mut Chooser) {
         2
       }
     }
-    _ => 9,
+    2 => 9,
+    _ => twin.and_then(|m| m.key).unwrap_or(9),
   };
-  if sig_c != 0 && candidate.map(|m| m.key.is_some()).unwrap_or(false) {
-    x.fail("sig", ["", "other-method-of-holder", "foreign-key", "payload-replaced"][sig_c], L_SIG);
+  // with an ambiguous selector a signature under the key of any method sharing the fragment is not judged false
+  let sig_by_sharing_method = ambiguous && sig_c != 3 && shared.iter().any(|m| m.key == Some(sign_key));
+  if sig_c != 0 && candidate.map(|m| m.key.is_some()).unwrap_or(false) && !sig_by_sharing_method {
+    x.fail("sig", ["", "other-method-of-holder", "foreign-key", "payload-replaced", "same-fragment-twin-key"][sig_c], L_SIG);
   }
   let nonce_of = |c: usize| match c {
     0 => None,
@@ -960,10 +1021,10 @@ fn eval(ctx: &Ctx, case: &Case) {
 }
 
 fn generate(ctx: &Ctx) {
-  ctx.rule("E1 choice DFS over 20 choice points (holder document, signature, kid, method_id, method_scope | header nonce, option nonce | exp, earliest_expiry_date, nbf, iat, latest_issuance_date | iss, vp.holder, jti/vp.id | aud, custom claims, verifiableCredential, vp shape, vp properties): all sequences with at most `deviation_bound` non-default choices, plus the complete product of each group with the other groups at default (binding core = 3 documents x 4 signatures x 23 kid forms x 7 method ids x 7 scopes x 5^2 nonces), the complete products dates x claims and claims x misc (thorough: also binding core without nonces x claims, dates x misc, nonce^2 x claims), and two condition lattices (every stated condition true / false by a canonical falsifier, all combinations). distinct_nontrivial = distinct (groups, choice sequence) whose execution got past the JWS stage (accepted, or rejected by an error that is not a PresentationJwsError)");
+  ctx.rule("E1 choice DFS over 20 choice points (holder document, signature, kid, method_id, method_scope | header nonce, option nonce | exp, earliest_expiry_date, nbf, iat, latest_issuance_date | iss, vp.holder, jti/vp.id | aud, custom claims, verifiableCredential, vp shape, vp properties): all sequences with at most `deviation_bound` non-default choices, plus the complete product of each group with the other groups at default (binding core = 6 documents x 5 signatures x 26 kid forms x 8 method ids x 7 scopes x 5^2 nonces), the complete products dates x claims and claims x misc (thorough: also binding core without nonces x claims, dates x misc, nonce^2 x claims), and two condition lattices (every stated condition true / false by a canonical falsifier, all combinations). distinct_nontrivial = distinct (groups, choice sequence) whose execution got past the JWS stage (accepted, or rejected by an error that is not a PresentationJwsError)");
   ctx.assume("Ed25519 signing by iota-crypto and base64url by identity_jose::jwu are trusted for assembling tokens; the real EdDSAJwsVerifier is used for verification");
   ctx.assume("issuance time of a presentation JWT is nbf when present, else iat (VC data model 1.1 §6.3.1 and the documented behaviour of IssuanceDateClaims)");
-  ctx.assume("open (recorded, not judged for liveness; blame judged against the classes the aspect may produce): foreign-DID method listed in the holder document, a method listed for key agreement only, kid with a query part, an empty nonce on one side and none on the other, exp above year 9999 or non-integer, issuance below year 0, iat after the bound beside a passing nbf, aud as array, explicit empty verifiableCredential array, vp without the base type");
+  ctx.assume("open (recorded, not judged for liveness; blame judged against the classes the aspect may produce): foreign-DID method listed in the holder document, a fragment-only selector on a fragment shared by two methods, a method listed for key agreement only, kid with a query part, an empty nonce on one side and none on the other, exp above year 9999 or non-integer, issuance below year 0, iat after the bound beside a passing nbf, aud as array, explicit empty verifiableCredential array, vp without the base type");
   ctx.assume("blame is judged on the documented meaning of the error variants only; unknown variants and an empty error list are recorded, not judged");
   ctx.bound("clock_now", fx::NOW);
   ctx.bound("earliest_expiry_date_explicit", EXP_BOUND);
